@@ -501,30 +501,45 @@ def gen_grid_case(rng, nobjs, dirs):
 
 
 def gen_float_case(rng, nobjs, dirs):
+    big = rng.random() < 0.35       # huge common magnitude, small spread: (o - min)/(max - min) is accurate there, o*scale - min*scale is not
     bnd = []
     for _ in range(nobjs):
-        lo = rng.uniform(-3, 3)
-        bnd.append((lo, lo + rng.uniform(0.1, 5)))
-    ref = [(100 + i, [rng.uniform(lo, hi) for lo, hi in bnd], 0.0 if rng.random() < 0.9 else 1.0) for i in range(rng.randrange(2, 7))]
-    st = [(i, [rng.uniform(lo - 0.3 * (hi - lo), hi + 0.3 * (hi - lo)) for lo, hi in bnd], 0.0 if rng.random() < 0.9 else 0.5)
-          for i in range(rng.randrange(0, 7))]
+        if big:
+            lo = rng.choice([1e15, -2e15, 3e15, 4e12, -4e12, 2.0 ** 50, -2.0 ** 45, 7e13])
+            bnd.append((lo, lo + rng.choice([3.0, 6.0, 5.0, 1.0, 7.0, 12.0])))
+        else:
+            lo = rng.uniform(-3, 3)
+            bnd.append((lo, lo + rng.uniform(0.1, 5)))
+
+    def val(lo, hi, out=0.0):
+        if big and rng.random() < 0.7:
+            return lo + rng.randrange(int(-out * 4), int((hi - lo) * 4) + 1 + int(out * 4)) / 4.0
+        return rng.uniform(lo - out * (hi - lo), hi + out * (hi - lo))
+    ref = [(100 + i, [val(lo, hi) for lo, hi in bnd], 0.0 if rng.random() < 0.9 else 1.0) for i in range(rng.randrange(2, 7))]
+    if big:
+        ref += [(110, [b[0] for b in bnd], 0.0), (111, [b[1] for b in bnd], 0.0)]
+    st = [(i, [val(lo, hi, 0.3) for lo, hi in bnd], 0.0 if rng.random() < 0.9 else 0.5) for i in range(rng.randrange(0, 7))]
     if st and rng.random() < 0.3:
         st.append(st[0])
     return nobjs, list(dirs), ref, st
 
 
-# "large offset" family: every objective shifted by a huge common offset (the ranges stay 1/2 .. 8 units, powers of two).
+# "large offset" family: every objective o replaced by m*o + O with a huge common offset O (or 0) and m in {1,3,5,6,7}, so the ranges are
+# 2^j, 3*2^j, 5*2^j, ... and the normalised values stay the same dyadics.
 # The unchanged normalisation (o - min) / (max - min) is EXACT on these inputs (o - min is exact, the division by a power of
 # two is exact) although |o| / range is ~1e12..1e15; an algebraically equivalent o*scale - min*scale is not.
 OFFSETS = [2.0 ** 40, -2.0 ** 40, 2.0 ** 45, -2.0 ** 45, 2.0 ** 50, -2.0 ** 50, float(round(1e15)), -float(round(1e15)), 4e12, -4e12]
 
 
+MULTS = [1.0, 1.0, 3.0, 5.0, 6.0, 7.0]        # ranges 3*2^j, 5*2^j, ...: the division is exact whenever the quotient is dyadic
+
+
 def _shift_vec(v, off):
-    """v + off coordinate-wise, or None if some sum is not a binary64 number"""
+    """m*v + off coordinate-wise (off = list of (offset, multiplier)), or None if some result is not a binary64 number"""
     out = []
-    for x, o in zip(v, off):
-        y = x + o
-        if Fraction(y) != Fraction(x) + Fraction(o):
+    for x, (o, m) in zip(v, off):
+        y = m * x + o
+        if Fraction(y) != Fraction(m) * Fraction(x) + Fraction(o):
             return None
         out.append(y)
     return out
@@ -543,7 +558,7 @@ def _shift_members(ms, off):
 def shift_case(case, rng):
     nobjs, dirs, ref, st = case
     for attempt in range(6):
-        off = [rng.choice(OFFSETS if attempt < 4 else OFFSETS[:2]) for _ in range(nobjs)]
+        off = [(rng.choice((OFFSETS + [0.0, 0.0]) if attempt < 4 else OFFSETS[:2]), rng.choice(MULTS)) for _ in range(nobjs)]
         r2, s2 = _shift_members(ref, off), _shift_members(st, off)
         if r2 is not None and s2 is not None:
             return nobjs, list(dirs), r2, s2
@@ -727,7 +742,7 @@ def run(ctx):
         nobjs = rng.choice([1, 2, 2, 3, 3, 4, 5])
         dirs = [rng.random() < 0.5 for _ in range(nobjs)]
         check_clauses(ctx, *gen_float_case(rng, nobjs, dirs), rng, False, "[arbitrary floats, tolerance 1e-9]")
-    dist["arbitrary_float_cases(oracle only, tolerance 1e-9)"] = nfl
+    dist["arbitrary_float_cases(oracle only, tolerance 1e-9; about a third with objectives around 1e12..3e15 and ranges 1..12)"] = nfl
     ctx.coverage["re_use_sequences(same indicator and Solution objects: repeated, another set in between, directions re-declared in place; solutions untouched)"] = HIST["reuse"]
     ctx.coverage["history_sequences_checked(other indicators between construction and calculate; values must be bitwise unchanged)"] = HIST["sequences"]
     ctx.coverage["input_distribution"] = dist
@@ -736,7 +751,7 @@ def run(ctx):
                                            "rationals; eps and all squared/L1 distances are compared exactly")
     ctx.rule = ("function cases on dyadic grids: 1-5 objectives x every direction vector; reference sets of 0-7 members whose feasible members span power-of-two ranges "
                 "([0,1],[0,2],[-1,1],[0,4],[1,2],[-2,2],[0,.5]) plus rejected ones (empty, no feasible member, degenerate range); sets of 0-7 listed solutions inside/outside the "
-                "reference bounds with infeasible members, duplicates, the same object twice, reference objects listed in the set, no feasible member; a 'large offset' family (the same sets with every objective shifted by +-2^40, 2^45, 2^50, 1e15 or 4e12: "
+                "reference bounds with infeasible members, duplicates, the same object twice, reference objects listed in the set, no feasible member; a 'large offset' family (the same sets with every objective mapped to m*o+O, O in {0, +-2^40, 2^45, 2^50, 1e15, 4e12}, m in {1,3,5,6,7} (ranges 3*2^j, 5*2^j, ... too): "
                 "the unchanged (o-min)/(max-min) is exact there). A case is kept only if every float "
                 "operation is exact (decided on Fractions: o-min, max-min, quotient are binary64 numbers; normalised coordinates dyadic with <= 12 fractional bits), else discarded and counted. "
                 "non-trivial = accepted reference set, at least one feasible member AND (a maximised objective, a member outside the bounds, an infeasible member or a repeated object); "
